@@ -18,6 +18,356 @@ from .c03 import _closures
 from .c19 import discover_factories
 
 
+HESS_KEY = "hess_fn"
+
+
+def _hessian_for_backend(prog, rep, f):
+    """The callable handed to scipy.optimize.minimize as ``hess=`` denotes s * Hessian(objective), s = -1 exactly when the
+    user maximises (the backend minimises -objective), on the solve that compiles it AND on every later solve that finds
+    it in the solver cache.  The function is sliced to the statements that feed ``hess=`` and walked under
+    {maximise, minimise} x {cache miss, cache hit}: compile_hessian(e, ..) is s*H with s read from e (C09's world
+    evaluation), a wrapper `def w(x): return [-]g(x)` carries [-]value(g), cache[key] = v stores v, a cache read gives
+    what was stored (miss) or CACHED (hit).  Obligations: miss -> used == s*H and stored == s*H; hit -> used == CACHED."""
+    from ..scenario import Explorer, TooManyPaths
+    from .c07 import _world_value
+    from .. import algebra as al
+
+    UNK, NONE = ("?",), ("none",)
+    # -- the consumer
+    sink = None
+    for c in calls(f.node, local=False):
+        for kw in c.keywords:
+            if kw.arg == "hess":
+                sink = (c, kw.value)
+    if sink is None:
+        rep.undecided(f"{f.name}: no call with a hess= argument found")
+        return
+
+    def is_key(n):
+        return isinstance(n, ast.Constant) and n.value == HESS_KEY
+
+    def cache_read(e):
+        if isinstance(e, ast.Subscript) and is_key(e.slice):
+            return "sub"
+        if isinstance(e, ast.Call) and isinstance(e.func, ast.Attribute) and e.func.attr == "get" and e.args and is_key(e.args[0]):
+            return "get"
+        return None
+
+    # -- slice: names that can reach the sink
+    rel = {n.id for n in ast.walk(sink[1]) if isinstance(n, ast.Name)}
+    changed = True
+    body_nodes = list(walk_local(f.node, include_self=False))
+    nested = {n.name: n for n in body_nodes if isinstance(n, ast.FunctionDef)}
+    while changed:
+        changed = False
+        for n in body_nodes:
+            tg = val = None
+            if isinstance(n, ast.Assign):
+                tg, val = n.targets, n.value
+            elif isinstance(n, ast.AnnAssign) and n.value is not None:
+                tg, val = [n.target], n.value
+            if tg is None:
+                continue
+            hit = any((isinstance(t, ast.Name) and t.id in rel) or (isinstance(t, ast.Subscript) and is_key(t.slice)) for t in tg)
+            if hit:
+                new = {x.id for x in ast.walk(val) if isinstance(x, ast.Name)} - rel
+                # only callables / cache handles matter: stop at the expression being differentiated
+                if isinstance(val, ast.Call) and dotted(val.func) == "compile_hessian":
+                    new = set()
+                if new:
+                    rel |= new
+                    changed = True
+        for nm, d in nested.items():
+            if nm in rel:
+                new = {x.func.id for x in ast.walk(d) if isinstance(x, ast.Call) and isinstance(x.func, ast.Name)} - rel
+                if new:
+                    rel |= new
+                    changed = True
+
+    def relevant(st):
+        if isinstance(st, ast.FunctionDef):
+            return st.name in rel
+        if isinstance(st, (ast.Assign, ast.AnnAssign)):
+            tg = st.targets if isinstance(st, ast.Assign) else [st.target]
+            if any((isinstance(t, ast.Name) and t.id in rel) or (isinstance(t, ast.Subscript) and is_key(t.slice)) for t in tg):
+                return True
+        return any(x is sink[0] for x in ast.walk(st))
+
+    def prune(stmts):
+        out = []
+        for st in stmts:
+            if isinstance(st, ast.If):
+                b, o = prune(st.body), prune(st.orelse)
+                if b or o:
+                    out.append(ast.If(test=st.test, body=b or [ast.Pass()], orelse=o, lineno=st.lineno, col_offset=0))
+            elif isinstance(st, ast.Try):
+                out += prune(list(st.body) + list(st.orelse) + list(st.finalbody))
+            elif isinstance(st, (ast.With, ast.For, ast.While)):
+                out += prune(st.body)
+            elif relevant(st):
+                out.append(st)
+        return out
+
+    sliced = prune(f.node.body)
+
+    # closures of compile_hessian that return a captured (pre-computed) array
+    shared, shared_name = [], None
+    cfh = prog.func("optyx.core.autodiff:compile_hessian")
+    for g in prog.nested_functions(cfh):
+        own = set(local_assignments(g.node)) | {a.arg for a in g.node.args.args}
+        for r in walk_local(g.node):
+            if isinstance(r, ast.Return) and isinstance(r.value, ast.Name) and r.value.id not in own:
+                shared.append(g)
+                shared_name = shared_name or r.value.id
+
+    def neg(v):
+        return (v[0], -v[1]) if v[0] in ("H", "CACHED") else v
+
+    for world in ("max", "min"):
+        want = -1 if world == "max" else 1
+        for cached in (False, True):
+            def value(e, state):
+                env = state["env"]
+                if isinstance(e, ast.Constant) and e.value is None:
+                    return NONE
+                if isinstance(e, ast.Name):
+                    return env.get(e.id, UNK)
+                if cache_read(e):
+                    if state["stored"] is not None:
+                        return state["stored"]
+                    if cached:
+                        return ("CACHED", 1)
+                    return NONE if cache_read(e) == "get" else UNK
+                if isinstance(e, ast.Call) and dotted(e.func) == "compile_hessian" and e.args:
+                    try:
+                        v = _world_value(prog, f, e.args[0], world, "objective")
+                    except AnalysisError:
+                        v = None
+                    if v is None:
+                        return UNK
+                    if v.eq(al.A("BASE")):
+                        return ("H", 1)
+                    if v.eq(al.C(-1) * al.A("BASE")):
+                        return ("H", -1)
+                    return UNK
+                if isinstance(e, ast.Lambda):
+                    return wrapper(e.body, [a.arg for a in e.args.args], state)
+                if isinstance(e, ast.Call) and isinstance(e.func, ast.Name) and e.func.id not in state["env"]:
+                    return factory_call(e, state)
+                if isinstance(e, ast.IfExp):
+                    t = truth(e.test, state)
+                    if t is None:
+                        a, b = value(e.body, state), value(e.orelse, state)
+                        return a if a == b else UNK
+                    return value(e.body if t else e.orelse, state)
+                return UNK
+
+            def wrapper(body, params, state):
+                """value of `lambda x: body`: [-]g(x) with g a tracked callable."""
+                sign = 1
+                while True:
+                    if isinstance(body, ast.UnaryOp) and isinstance(body.op, ast.USub):
+                        sign, body = -sign, body.operand
+                    elif isinstance(body, ast.BinOp) and isinstance(body.op, ast.Mult) and any(isinstance(k, ast.Constant) or (isinstance(k, ast.UnaryOp) and isinstance(k.operand, ast.Constant)) for k in (body.left, body.right)):
+                        k, other = (body.left, body.right) if not isinstance(body.left, ast.Call) else (body.right, body.left)
+                        try:
+                            kv = ast.literal_eval(k)
+                        except Exception:
+                            return UNK
+                        if kv not in (1, -1, 1.0, -1.0):
+                            return UNK
+                        sign, body = sign * int(kv), other
+                    else:
+                        break
+                if isinstance(body, ast.Call) and len(body.args) == 1 and isinstance(body.args[0], ast.Name) and body.args[0].id in params and not body.keywords:
+                    g = value(body.func, state)
+                    return neg(g) if sign < 0 else g
+                return UNK
+
+            def wrapper_def(d, state):
+                """value of a nested def: straight-line `T = g(x)` ... `return [-]T` (np.negative(T[, out=T]) counts as -T).
+                In-place edits of T are recorded in state['inplace']."""
+                params = [a.arg for a in d.args.args]
+                body = [x for x in d.body if not (isinstance(x, ast.Expr) and isinstance(x.value, ast.Constant))]
+                if len(body) == 1 and isinstance(body[0], ast.Return) and body[0].value is not None and not isinstance(body[0].value, ast.Name):
+                    return wrapper(body[0].value, params, state)
+                arr = {}
+                for st in body:
+                    if isinstance(st, (ast.Assign, ast.AnnAssign)) and getattr(st, "value", None) is not None:
+                        tg = st.targets[0] if isinstance(st, ast.Assign) else st.target
+                        if isinstance(tg, ast.Name):
+                            arr[tg.id] = result_of(st.value, params, state, arr)
+                            continue
+                        if isinstance(tg, ast.Subscript) and isinstance(tg.value, ast.Name) and tg.value.id in arr:
+                            state["inplace"].append((st.lineno, src(st)[:60], arr[tg.value.id]))
+                            arr[tg.value.id] = UNK
+                            continue
+                        return UNK
+                    if isinstance(st, ast.AugAssign) and isinstance(st.target, ast.Name) and st.target.id in arr:
+                        k = st.value
+                        state["inplace"].append((st.lineno, src(st)[:60], arr[st.target.id]))
+                        try:
+                            kv = ast.literal_eval(k)
+                        except Exception:
+                            kv = None
+                        if isinstance(st.op, ast.Mult) and kv in (-1, -1.0):
+                            arr[st.target.id] = neg(arr[st.target.id])
+                        else:
+                            arr[st.target.id] = UNK
+                        continue
+                    if isinstance(st, ast.Expr) and isinstance(st.value, ast.Call):
+                        v = result_of(st.value, params, state, arr)    # np.negative(T, out=T) as a statement
+                        outs = [kw.value.id for kw in st.value.keywords if kw.arg == "out" and isinstance(kw.value, ast.Name)]
+                        if outs and outs[0] in arr:
+                            arr[outs[0]] = v
+                            continue
+                        return UNK
+                    if isinstance(st, ast.Return) and st.value is not None:
+                        return result_of(st.value, params, state, arr)
+                    return UNK
+                return UNK
+
+            def result_of(e, params, state, arr):
+                """value of an array expression inside a wrapper body, as [-]g when it is [-]g(x)."""
+                if isinstance(e, ast.Name):
+                    return arr.get(e.id, UNK)
+                if isinstance(e, ast.UnaryOp) and isinstance(e.op, ast.USub):
+                    return neg(result_of(e.operand, params, state, arr))
+                if isinstance(e, ast.Call) and (dotted(e.func) or "").split(".")[-1] == "negative" and e.args:
+                    inner = result_of(e.args[0], params, state, arr)
+                    for kw in e.keywords:
+                        if kw.arg == "out" and isinstance(kw.value, ast.Name) and kw.value.id in arr:
+                            state["inplace"].append((e.lineno, src(e)[:60], arr[kw.value.id]))
+                    return neg(inner)
+                if isinstance(e, ast.BinOp) and isinstance(e.op, ast.Mult):
+                    for k, other in ((e.left, e.right), (e.right, e.left)):
+                        try:
+                            kv = ast.literal_eval(k)
+                        except Exception:
+                            continue
+                        if kv in (1, 1.0):
+                            return result_of(other, params, state, arr)
+                        if kv in (-1, -1.0):
+                            return neg(result_of(other, params, state, arr))
+                    return UNK
+                if isinstance(e, ast.Call) and len(e.args) == 1 and isinstance(e.args[0], ast.Name) and e.args[0].id in params and not e.keywords:
+                    return value(e.func, state)
+                return UNK
+
+            def factory_call(e, state):
+                """g(h) where module-level g is `def g(p): def inner(x): ...; return inner`."""
+                if not (isinstance(e.func, ast.Name) and not e.keywords):
+                    return UNK
+                g = prog.functions.get(f"{f.module.name}:{e.func.id}")
+                if g is None:
+                    return UNK
+                body = [x for x in g.node.body if not (isinstance(x, ast.Expr) and isinstance(x.value, ast.Constant))]
+                ps = [a.arg for a in g.node.args.args]
+                if len(ps) != len(e.args):
+                    return UNK
+                sub = {"env": {p_: value(a, state) for p_, a in zip(ps, e.args)}, "stored": state["stored"], "inplace": state["inplace"]}
+                if len(body) == 2 and isinstance(body[0], ast.FunctionDef) and isinstance(body[1], ast.Return) and isinstance(body[1].value, ast.Name) and body[1].value.id == body[0].name:
+                    return wrapper_def(body[0], sub)
+                if len(body) == 1 and isinstance(body[0], ast.Return) and isinstance(body[0].value, ast.Lambda):
+                    return wrapper(body[0].value.body, [a.arg for a in body[0].value.args.args], sub)
+                return UNK
+
+            def truth(t, state):
+                txt = src(t)
+                if isinstance(t, ast.Compare) and len(t.ops) == 1:
+                    l, op, r = t.left, t.ops[0], t.comparators[0]
+                    if is_key(l) and isinstance(op, (ast.In, ast.NotIn)):
+                        present = cached or state["stored"] is not None
+                        return present if isinstance(op, ast.In) else not present
+                    if isinstance(r, ast.Constant) and r.value is None and isinstance(op, (ast.Is, ast.IsNot, ast.Eq, ast.NotEq)):
+                        v = value(l, state)
+                        if v == UNK:
+                            return None
+                        isn = v == NONE
+                        return isn if isinstance(op, (ast.Is, ast.Eq)) else not isn
+                    if "sense" in txt and isinstance(op, (ast.Eq, ast.NotEq)) and ("'max" in txt or "'min" in txt):
+                        holds = (world == "max") == ("'max" in txt)
+                        return holds if isinstance(op, ast.Eq) else not holds
+                    if isinstance(op, (ast.In, ast.NotIn)) and "HESSIAN" in txt.upper():
+                        return isinstance(op, ast.In)      # a Hessian-using method was requested
+                if isinstance(t, ast.Name):
+                    if "hess" in t.id.lower():
+                        v = state["env"].get(t.id)
+                        if v is None:
+                            return True                    # use_hessian: the user did not switch it off
+                        return None if v == UNK else v != NONE
+                return None
+
+            def on_stmt(st, state):
+                if isinstance(st, ast.FunctionDef):
+                    state["env"][st.name] = wrapper_def(st, state)
+                    return
+                if isinstance(st, (ast.Assign, ast.AnnAssign)) and getattr(st, "value", None) is not None:
+                    tgs = st.targets if isinstance(st, ast.Assign) else [st.target]
+                    v = value(st.value, state)
+                    for tg in tgs:
+                        if isinstance(tg, ast.Name):
+                            state["env"][tg.id] = v
+                        elif isinstance(tg, ast.Subscript) and is_key(tg.slice):
+                            state["stored"] = v
+                            state["stored_at"] = st.lineno
+                if any(x is sink[0] for x in ast.walk(st)):
+                    state["used"] = value(sink[1], state)
+                    state["reached"] = True
+
+            ex = Explorer(truth, on_stmt, max_paths=256)
+            try:
+                paths = ex.explore(sliced, {"env": {}, "stored": None, "stored_at": None, "used": None, "reached": False, "inplace": []})
+            except TooManyPaths:
+                rep.undecided(f"{f.name}: too many paths through the Hessian plumbing")
+                return
+            label = f"{'maximise' if world == 'max' else 'minimise'}, {'Hessian already in the solver cache' if cached else 'first Hessian solve'}"
+            def show(v):
+                if v is None:
+                    return "-"
+                if v[0] == "H":
+                    return f"{'-' if v[1] < 0 else '+'}Hessian(objective)"
+                if v[0] == "CACHED":
+                    return f"{'-' if v[1] < 0 else ''}the cached callable"
+                return "None" if v == NONE else "?"
+
+            n_reach = 0
+            for state, term in paths:
+                if not state["reached"]:
+                    continue
+                n_reach += 1
+                for ln, text, what in state["inplace"]:
+                    if what[0] in ("H", "CACHED") and shared:
+                        rep.ob("R17.4", f.name, False,
+                               f"`{text}` modifies the matrix returned by the compiled Hessian in place, but compile_hessian's closure {shared[0].qual.split(':')[1].split('.<locals>.')[-1]} returns one "
+                               f"pre-computed array on every call (it returns the captured `{shared_name}`): the stored constant is flipped on each evaluation, so every second Hessian SciPy sees has the wrong sign",
+                               loc=f"{f.module.rel}:{ln}", detail="in-place-on-compiled-output", robust=True)
+                used, stored = state["used"], state["stored"]
+                if cached:
+                    if used == UNK:
+                        rep.undecided(f"{f.name}: hess= not interpretable ({label})")
+                        continue
+                    ok = used == ("CACHED", 1)
+                    rep.ob("R17.4", f.name, ok, f"{label}: SciPy gets the cached callable unchanged" if ok else
+                           f"{label}: SciPy is handed {show(used)} -- the callable compiled by an earlier solve already carries the sign the backend needs",
+                           loc=f"{f.module.rel}:{sink[0].lineno}", detail=f"hess-used:{world}:hit", robust=True)
+                else:
+                    if used == UNK or stored == UNK:
+                        rep.undecided(f"{f.name}: Hessian plumbing not interpretable ({label}): used={show(used)}, stored={show(stored)}")
+                        continue
+                    ok = used == ("H", want)
+                    rep.ob("R17.4", f.name, ok, f"{label}: SciPy gets {show(used)}" if ok else
+                           f"{label}: SciPy is handed {show(used)} but it minimises {'-objective' if world == 'max' else 'the objective'}, whose Hessian is {show(('H', want))}",
+                           loc=f"{f.module.rel}:{sink[0].lineno}", detail=f"hess-used:{world}:miss", robust=True)
+                    if stored is not None:
+                        ok2 = stored == ("H", want)
+                        rep.ob("R17.4", f.name, ok2, f"{label}: the solver cache keeps {show(stored)}, what later solves must use" if ok2 else
+                               f"{label}: this solve uses {show(used)} but stores {show(stored)} under cache['{HESS_KEY}']: every later solve of the same problem takes the stored callable and hands SciPy the Hessian with the wrong sign",
+                               loc=f"{f.module.rel}:{state['stored_at']}", detail=f"hess-stored:{world}", robust=True)
+            if not n_reach:
+                rep.undecided(f"{f.name}: the minimize call is not reached in the sliced walk ({label})")
+
+
 def check(prog, rep):
     ch = prog.func("optyx.core.autodiff:compute_hessian")
     s = src(ch.node)
@@ -36,6 +386,18 @@ def check(prog, rep):
     for o in sub.obs:
         if o.rule == "R02.6":
             rep.pin('hessian shape rules', "R17.1", f"closure:{o.construct}", o.ok, o.msg, loc=o.loc, detail="emitted-kind-has-rule")
+
+    # the second pass runs the registered rules on the first pass's output: a rule of the differentiation module that
+    # decides which vector it is looking at by name (C11 R11.4) returns the entry of another view there
+    from .c11 import _identity
+    sub11 = Report(rep.prop, rep.tier, quiet=True)
+    _identity(prog, sub11)
+    n_id = 0
+    for o in sub11.obs:
+        if o.rule == "R11.4" and (o.detail or "").startswith("vector-identity-by-name") and (o.loc or "").startswith("src/optyx/core/autodiff.py"):
+            n_id += 1
+            rep.ob("R17.1", f"second-pass:{o.construct}", o.ok, o.msg + " -- the Hessian's second pass differentiates LinearCombination / DotProduct rows over views through this code", loc=o.loc, detail="vector-identity-by-name", robust=True)
+    rep.ob("R17.1", "second-pass", True, f"{n_id} place(s) in the differentiation module identify a vector by name", detail="identity-inventory", trivial=True)
 
     cf = prog.func("optyx.core.autodiff:compile_hessian")
     t = src(cf.node)
@@ -65,16 +427,12 @@ def check(prog, rep):
     idx_ok = t.count("indices = np.array([var_name_to_idx[v.name] for v in vector_vars], dtype=np.intp)") == 2 and t.count("var_name_to_idx = {v.name: i for i, v in enumerate(variables)}") == 2
     rep.pin('hessian shape rules', "R17.3", "compile_hessian", idx_ok, "diagonal positions are the columns of the vector's variables in the caller's order" if idx_ok else "diagonal positions are not looked up in the caller's variable order", loc=cf.loc, detail="positions")
 
-    # R17.4
+    # R17.4 (semantic; the two text pins it replaces accepted one statement shape only)
     sc = [f for f in prog.functions.values() if f.module.name == "optyx.solvers.scipy_solver" and any(dotted(c.func) == "compile_hessian" for c in calls(f.node))]
     if not sc:
         raise AnalysisError("no caller of compile_hessian in the SciPy solver")
     for f in sc:
-        w = src(f.node)
-        ok = Frag(w, "if problem.sense == 'maximize':\n                obj_expr = -obj_expr", "compiled_hess = compile_hessian(obj_expr, variables)", "obj_expr = problem.objective")
-        rep.pin('hessian shape rules', "R17.4", f.name, ok, "the Hessian is compiled from the objective, negated iff the problem is a maximisation (same guard as objective and gradient, see C09 R09.2)" if ok else "the Hessian for SciPy is not compiled from the objective negated under `problem.sense == 'maximize'`", loc=f.loc, detail="negated-iff-maximise")
-        ok2 = Frag(w, "cache['hess_fn'] = compiled_hess", "if 'hess_fn' not in cache")
-        rep.pin('hessian shape rules', "R17.4", f.name, ok2, "compiled once per cache generation" if ok2 else "the compiled Hessian is not stored in the current solver cache", loc=f.loc, detail="cached")
+        rep.section(_hessian_for_backend, prog, rep, f)
     rep.expect_min("R17.1", 5)
     rep.expect_min("R17.2", 3)
     rep.expect_min("R17.3", 20)
